@@ -70,6 +70,7 @@ type Case struct {
 	ChunkSize int        `json:"chunk_size"`
 	MinChunk  int        `json:"min_chunk"`
 	DirCache  bool       `json:"dir_cache,omitempty"` // directory chunk cache (2-entry memory LRU, SyncAdd) instead of the memory cache
+	Direct    bool       `json:"direct,omitempty"`    // directory cache in direct mode (what FUSE passthrough requires): enables "pass" ops
 	Files     []FileSpec `json:"files"`
 	Cors      []Cor      `json:"cors"`
 	Ops       []Op       `json:"ops"`
@@ -781,9 +782,22 @@ func (w *world) cachedKey(key string) ([]byte, bool) {
 func (w *world) cachedBytes(f, i int) ([]byte, bool) { return w.cachedKey(w.cacheKey(f, i)) }
 
 // cachedKeys: which chunk keys are in the cache now.
+func (w *world) wholeKey(f int) (string, int64) {
+	var total int64
+	for _, ci := range w.tabs[f] {
+		total += ci.Size
+	}
+	return reader.VerifGenIDC01(w.files[f], 0, total), total
+}
+
 func (w *world) cachedKeys() map[string]bool {
 	m := map[string]bool{}
 	for f := range w.tabs {
+		if k, _ := w.wholeKey(f); true {
+			if _, ok := w.cachedKey(k); ok {
+				m[k] = true
+			}
+		}
 		for i := range w.tabs[f] {
 			k := w.cacheKey(f, i)
 			if _, ok := w.cachedKey(k); ok {
@@ -815,6 +829,29 @@ func (w *world) scanCache(when string) {
 			} else {
 				w.problems = append(w.problems, problem{"", fmt.Sprintf("%s: verified layer caches bytes of file %d chunk %d that do not match the recorded chunk digest", when, f, i)})
 			}
+		}
+		// the whole-file entry of the passthrough merge: a concatenation of chunks that match their digests
+		if len(w.tabs[f]) < 2 {
+			continue
+		}
+		k, total := w.wholeKey(f)
+		b, ok := w.cachedKey(k)
+		if !ok {
+			continue
+		}
+		good := int64(len(b)) == total
+		for _, ci := range w.tabs[f] {
+			if good && !chunkGood(ci, b[ci.Off:ci.Off+ci.Size]) {
+				good = false
+			}
+		}
+		if good {
+			continue
+		}
+		if w.skipCached[k] {
+			w.problems = append(w.problems, problem{"C01-skip-read-residue", fmt.Sprintf("%s: merged entry of file %d written by an unverified passthrough open is still cached in a verified layer and contains a chunk that does not match its recorded digest", when, f)})
+		} else {
+			w.problems = append(w.problems, problem{"", fmt.Sprintf("%s: verified layer caches a merged whole-file entry of file %d containing bytes that do not match the recorded chunk digests", when, f)})
 		}
 	}
 }
@@ -1041,13 +1078,13 @@ func run(c Case) (res result) {
 
 	w.mr = &recReader{mr, w.rec}
 	var mcache cache.BlobCache
-	if c.DirCache {
+	if c.DirCache || c.Direct {
 		dir, err := os.MkdirTemp("", "c01cache")
 		if err != nil {
 			panic(err)
 		}
 		defer os.RemoveAll(dir)
-		mcache, err = cache.NewDirectoryCache(dir, cache.DirectoryCacheConfig{MaxLRUCacheEntry: 2, MaxCacheFds: 2, SyncAdd: true})
+		mcache, err = cache.NewDirectoryCache(dir, cache.DirectoryCacheConfig{MaxLRUCacheEntry: 2, MaxCacheFds: 2, SyncAdd: true, Direct: c.Direct})
 		if err != nil {
 			panic(err)
 		}
@@ -1297,6 +1334,98 @@ func run(c Case) (res result) {
 			}
 			emit(fmt.Sprintf("HRead %d%%N %s %s %s", w.files[o.F], hx.CoqZ(o.Off), hx.CoqZ(o.Len), hx.CoqList(fts)), out)
 			w.scanCache("after read")
+		case "pass":
+			// OpenFile(f).GetPassthroughFd(mergeBufferSize, workers), then the content of the cache file it hands out
+			if w.rd == nil || !c.Direct || o.F < 0 || o.F >= len(c.Files) || len(w.tabs[o.F]) == 0 || o.Len <= 0 || len(w.flights) > 0 {
+				continue
+			}
+			workers := max(o.I, 1)
+			if c.MinChunk > 0 {
+				workers = 1 // pre-read callbacks make the order of fetches matter
+			}
+			verifiedMode := w.verifiedWith != ""
+			before := w.cachedKeys()
+			w.rec.take()
+			out := Out{Kind: "r", Res: "err"}
+			ra, err := w.rd.OpenFile(w.files[o.F])
+			if err == nil {
+				g, ok := ra.(reader.PassthroughFdGetter)
+				if !ok {
+					panic("file does not implement PassthroughFdGetter")
+				}
+				var cr cache.Reader
+				_, cr, err = g.GetPassthroughFd(o.Len, workers)
+				if err == nil {
+					buf := make([]byte, 1<<16)
+					n, rerr := cr.ReadAt(buf, 0)
+					cr.Close()
+					if rerr != nil && rerr != io.EOF {
+						w.problems = append(w.problems, problem{"", "the cache file handed out by GetPassthroughFd cannot be read"})
+					}
+					out = Out{Kind: "r", Res: "ok", Data: buf[:n]}
+				}
+			}
+			fs := w.rec.take()
+			fts := []string{}
+			for _, fr := range fs {
+				for i, ci := range w.tabs[o.F] {
+					if fr.ID == w.files[o.F] && ci.Off == fr.Off {
+						fts = append(fts, fmt.Sprintf("(%d%%nat, %s)", i, w.coqFetch(fr)))
+					}
+				}
+			}
+			if out.Res == "ok" {
+				w.stats["result.pass.ok"]++
+				if len(fs) == 0 {
+					w.stats["result.pass.nofetch"]++
+				}
+			} else {
+				w.stats["result.pass.err"]++
+				w.sawErr = true
+			}
+			seq := false
+			for _, ci := range w.tabs[o.F] {
+				if ci.Size > o.Len || ci.Off/o.Len != (ci.Off+ci.Size-1)/o.Len {
+					seq = true
+				}
+			}
+			if seq {
+				w.stats["op.pass.sequential"]++
+			} else {
+				w.stats["op.pass.batch"]++
+			}
+			if !verifiedMode {
+				w.skipRead = true
+				w.stats["op.pass.unverified"]++
+				for k := range w.cachedKeys() {
+					if !before[k] {
+						w.skipCached[k] = true
+					}
+				}
+			} else {
+				w.stats["op.pass.verified"]++
+				w.sawVerifiedRd = true
+			}
+			// clause: what the kernel would read through the descriptor of a layer verified against the trusted digest is the original file
+			if verifiedMode && out.Res == "ok" && w.verifiedWith == w.dOrig.String() && !bytes.Equal(out.Data, c.Files[o.F].Data) {
+				residue := w.skipRead && len(out.Data) == len(c.Files[o.F].Data)
+				if k, _ := w.wholeKey(o.F); !w.skipCached[k] {
+					for i, ci := range w.tabs[o.F] {
+						if b, ok := w.cachedBytes(o.F, i); !(ok && !chunkGood(ci, b) && w.skipCached[w.cacheKey(o.F, i)]) &&
+							residue && !bytes.Equal(out.Data[ci.Off:ci.Off+ci.Size], c.Files[o.F].Data[ci.Off:ci.Off+ci.Size]) {
+							residue = false
+						}
+					}
+				}
+				if residue {
+					w.problems = append(w.problems, problem{"C01-skip-read-residue", fmt.Sprintf("passthrough open of file %d in a layer verified against the trusted TOC digest hands out altered bytes left in the cache by an earlier unverified read", o.F)})
+				} else {
+					w.problems = append(w.problems, problem{"", fmt.Sprintf("passthrough open of file %d in a layer verified against the trusted TOC digest hands out bytes that differ from the original content", o.F)})
+				}
+				w.sawBadServed = true
+			}
+			emit(fmt.Sprintf("HPass %d%%N %s %s", w.files[o.F], hx.CoqZ(o.Len), hx.CoqList(fts)), out)
+			w.scanCache("after passthrough open")
 		case "pfstart":
 			// start one readAndCache in its own goroutine and stop it before ("add") or after ("commit") its
 			// verification step; other calls (VerifyTOC!) then run while it is in flight
@@ -1455,6 +1584,7 @@ func gen(r *hx.Rng) Case {
 		c.Comp = "zstd"
 	}
 	c.DirCache = r.Chance(1, 4)
+	c.Direct = r.Chance(1, 4)
 	c.ChunkSize = []int{4, 7, 8, 16, 16, 32}[r.Intn(6)]
 	if r.Chance(1, 5) {
 		c.MinChunk = []int{20, 40, 100}[r.Intn(3)]
@@ -1529,7 +1659,11 @@ func gen(r *hx.Rng) Case {
 		return Op{Op: "read", F: f, Off: sz, Len: 3} // at / past EOF
 	}
 	for i := 0; i < nops; i++ {
-		switch r.Pick(3, 1, 3, 1, 4, 2, 8, 2, 3, 2) {
+		passW := 0
+		if c.Direct {
+			passW = 6
+		}
+		switch r.Pick(3, 1, 3, 1, 4, 2, 8, 2, 3, 2, passW) {
 		case 0:
 			c.Ops = append(c.Ops, Op{Op: "vtoc", D: dsel()})
 		case 1:
@@ -1553,6 +1687,10 @@ func gen(r *hx.Rng) Case {
 			c.Ops = append(c.Ops, Op{Op: "pfstart", F: f, I: k, D: []string{"add", "write", "write", "commit", "abort"}[r.Intn(5)]})
 		case 9:
 			c.Ops = append(c.Ops, Op{Op: "pfresume", I: r.Intn(2)})
+		case 10:
+			cs := int64(c.ChunkSize)
+			buf := []int64{cs - 1, cs, cs + 3, 2 * cs, 2*cs + 1, 3 * cs, 1000}[r.Intn(7)]
+			c.Ops = append(c.Ops, Op{Op: "pass", F: r.Intn(nf), Len: max(buf, 1), I: r.Range(1, 3)})
 		}
 	}
 	// after whatever failed: re-read everything through the warm cache, then look at the cache
@@ -1646,6 +1784,23 @@ func stopCorpus() []Case {
 			}
 		}
 	}
+	// passthrough merge: both code paths (batch: buffer = 2 chunks; sequential: buffer smaller than a chunk, and a buffer
+	// that makes a chunk straddle a batch boundary), genuine and altered chunk, verified and unverified then verified
+	for _, buf := range []int64{16, 5, 11} {
+		for _, altered := range []bool{false, true} {
+			c := Case{Comp: "gzip", ChunkSize: 8, Direct: true, Files: []FileSpec{{"a", txt}}}
+			if altered {
+				c.Cors = []Cor{{Kind: "replace", F: 0, I: 1, Alt: 1}}
+			}
+			c.Ops = []Op{{Op: "vtoc", D: "orig"}, {Op: "read", F: 0, Off: 0, Len: 8}, {Op: "pass", F: 0, Len: buf, I: 2}, {Op: "probe", F: 0, I: 1},
+				{Op: "pass", F: 0, Len: buf, I: 1}, {Op: "read", F: 0, Off: 0, Len: 20}}
+			out = append(out, c)
+		}
+	}
+	out = append(out, Case{Comp: "gzip", ChunkSize: 8, Direct: true, Files: []FileSpec{{"a", txt}}, Cors: []Cor{{Kind: "replace", F: 0, I: 1, Alt: 1}},
+		Ops: []Op{{Op: "lskip"}, {Op: "pass", F: 0, Len: 16, I: 2}, {Op: "lverify", D: "orig"}, {Op: "pass", F: 0, Len: 16, I: 2}}})
+	out = append(out, Case{Comp: "gzip", ChunkSize: 8, MinChunk: 40, Direct: true, Files: []FileSpec{{"a", txt}, {"b", txt[:10]}},
+		Ops: []Op{{Op: "vtoc", D: "orig"}, {Op: "pass", F: 1, Len: 16, I: 1}, {Op: "pass", F: 0, Len: 16, I: 1}, {Op: "read", F: 0, Off: 0, Len: 20}}})
 	// unparsable chunk digest: the RLock section comes before the copy
 	for _, pre := range []bool{false, true} {
 		c := Case{Comp: "gzip", ChunkSize: 8, Files: []FileSpec{{"a", txt}}, Cors: []Cor{{Kind: "tocnodigest", F: 0, I: 1}}}
